@@ -35,6 +35,9 @@ BODY = [
      '</case></switch>'),
     ("in-case-after-dummy-in-earlier-case-chain",
      '<field name="k" type="char"/><switch field="k"><case value="1"><dummy type="char">1</dummy><field name="x" type="char"/></case></switch>'),
+    ("chunked-section-after-dummy", '<dummy type="char">1</dummy><chunked><field name="a" type="string"/></chunked>'),
+    ("chunked-break-after-dummy", '<dummy type="char">1</dummy><chunked><break/><field name="a" type="char"/></chunked>'),
+    ("switch-after-dummy", '<dummy type="char">1</dummy><switch field="sel0"><case value="1"><field name="x" type="char"/></case></switch>'),
     ("after-dummy", '<dummy type="char">1</dummy><field name="a" type="char"/>'),
     ("dummy-after-dummy", '<dummy type="char">1</dummy><dummy type="char">1</dummy>'),
     ("after-dummy-in-case", '<field name="k" type="char"/><switch field="k"><case value="1"><dummy type="char">1</dummy></case></switch>'
@@ -84,6 +87,14 @@ NEEDS_NO_CHUNK = [
     ("delimited-true-uppercase-outside-chunked", '<array name="a" type="string" delimited="TRUE"/>'),
     ("break-outside-chunked", '<field name="a" type="char"/><break/>'),
 ]
+# ill-formed, and only expressible inside a chunked context
+NEEDS_CHUNK = [
+    ("break-after-dummy", '<field name="a" type="string"/><dummy type="char">0</dummy><break/><field name="b" type="string"/>'),
+    ("break-directly-after-dummy", '<dummy type="char">0</dummy><break/>'),
+    ("break-after-dummy-in-case", '<field name="k" type="char"/><switch field="k"><case value="1"><dummy type="char">1</dummy></case></switch><break/>'),
+    ("delimited-array-after-dummy", '<dummy type="char">0</dummy><array name="a" type="string" delimited="true"/>'),
+]
+POSITIONS_CHUNK = ["chunked", "chunkedcase", "nestedchunked", "casechunked"]
 POSITIONS_ALL = ["top", "chunked", "case", "chunkedcase", "afterchunked", "nestedchunked", "casechunked"]
 POSITIONS_NOCHUNK = ["top", "case", "afterchunked"]
 
@@ -106,6 +117,9 @@ def body_cases():
             yield rule, pos, wrap(frag, pos)
     for rule, frag in NEEDS_NO_CHUNK:
         for pos in POSITIONS_NOCHUNK:
+            yield rule, pos, wrap(frag, pos)
+    for rule, frag in NEEDS_CHUNK:
+        for pos in POSITIONS_CHUNK:
             yield rule, pos, wrap(frag, pos)
 
 
